@@ -292,29 +292,32 @@ def _work(job):
         except z3.Z3Exception:
             ng = None
         negs.append(ng if ng is not None and not any(quant.has_quant(x) for x in ng) else None)
+    # stage 1: z3 with E-matching only (MBQI off) on the quantified hypotheses -- fast and goal directed
     solver = None
     try:
-        src = [x for ng in negs if ng for x in ng]
-        ground_h, _ = quant.qf_instances_with_terms(hyps, src, rounds=2)
         solver = z3.Solver()
-        solver.set('timeout', max(2000, z3_ms // 4))
-        solver.add(*ground_h)
+        solver.set('timeout', max(3000, z3_ms // 3))
+        solver.set('smt.mbqi', False)
+        solver.add(*hyps)
     except z3.Z3Exception:
         solver = None
     shared = time.time() - t0
     for (idx, gtext), g, ng in zip(goals, gls, negs):
         t1 = time.time()
         res = None
-        if solver is not None and ng is not None:
+        if solver is not None:
             solver.push()
-            solver.add(*ng)
-            r = solver.check()
+            solver.add(z3.Not(g))
+            try:
+                r = solver.check()
+            except z3.Z3Exception:
+                r = z3.unknown
             solver.pop()
             if r == z3.unsat:
-                res = [('z3', 'unsat', time.time() - t1 + shared / max(1, len(goals)), 'inst-shared')]
+                res = [('z3', 'unsat', time.time() - t1 + shared / max(1, len(goals)), 'e-matching')]
         model = None
         if res is None and fast:
-            res = [('z3', 'unknown', time.time() - t1, 'inst-shared only (fast stage)')]
+            res = [('z3', 'unknown', time.time() - t1, 'e-matching only (fast stage)')]
         elif res is None:
             r, model, reason, secs = _solve_z3_assertions(hyps + [z3.Not(g)], z3_ms)
             res = [('z3', r, secs, reason)]
